@@ -16,7 +16,7 @@ func init() { register("C10", propC10) }
 func propC10() *Property {
 	return &Property{
 		ID:      "C10",
-		Decides: "the process has no recover(), so every panic is fatal; decided: R10.1a every error that can reach the stream event loop's error-type panics is a typed error (WrapErrorWithType with a known constant) or forwarded from a function for which that holds; R10.1b the dynamic type of a segment's metadata is a function of its protocol byte (two implementers, constant family-consistent protocol in every constructor, Unmarshal stores only a protocol of its own family, metadata never nil) and every unchecked type assertion on metadata is reachable only for protocols of the asserted family (constant propagation over the 16 protocol numbers, through callers); R10.1c only session/data segments are inserted into a segment tree; R10.1d a mismatch between the user of a session's cipher and the user of the cipher that decrypted a segment never leads to a panic; R10.1e inventory: every explicit panic in the network-facing packages is classified in a table confirmed by reading (constructor/configuration misuse with constant arguments verified by folding, internal invariants with the rule that maintains them) — an unclassified panic site fails the check; R10.4 no arithmetic is performed on a narrow unsigned value read from a packet before it is widened (wrap-around then slice).",
+		Decides: "the process has no recover(), so every panic is fatal; decided: R10.1a every error that can reach the stream event loop's error-type panics is a typed error (WrapErrorWithType with a known constant) or forwarded from a function for which that holds; R10.1b the dynamic type of a segment's metadata is a function of its protocol byte (two implementers, constant family-consistent protocol in every constructor, Unmarshal stores only a protocol of its own family, metadata never nil) and every unchecked type assertion on metadata is reachable only for protocols of the asserted family (constant propagation over the 16 protocol numbers, through callers); R10.1c only session/data segments are inserted into a segment tree; R10.1d a mismatch between the user of a session's cipher and the user of the cipher that decrypted a segment never leads to a panic; R10.1e inventory: every explicit panic in the network-facing packages is classified in a table confirmed by reading (constructor/configuration misuse with constant arguments verified by folding, internal invariants with the rule that maintains them) — an unclassified panic site fails the check; R10.4 no arithmetic is performed on a narrow unsigned value read from a packet before it is widened (wrap-around then slice).; R10.5 narrow-typed arithmetic on a parsed metadata length field is covered by an unconditional parse-time bound; R10.6 reader contract: every Read/ReadFrom implementation returns a count within len(p)",
 		NotDecided: "run-time panics without an explicit panic statement other than the narrow-arithmetic pattern: nil dereferences, slice bounds in general, division by zero, atomic.Value type mismatches (F9: not demonstrable on production paths, not armed), resource exhaustion, panics inside the standard library and protobuf.",
 		Rules: []Rule{
 			{ID: "R10.1a", Floor: 15, Text: "StreamUnderlay.readOneSegment/readSessionSegment/readDataAckSegment return only nil, WrapErrorWithType(_, T) with T in {PROTOCOL,NETWORK,CRYPTO,REPLAY}, or an error forwarded from one of these functions", Run: r10_1a},
